@@ -196,6 +196,14 @@ func c05Parse(w *rt.W, text string, r uu.Rule, both bool) (accepted bool) {
 		judge("DefaultParser[[]byte]", g, err)
 		g, err = uu.Parser([]byte(text), r) // the exported Parser variable is an entry point of its own
 		judge("Parser variable", g, err)
+		if r == 0 { // ID.UnmarshalText parses under rule 0
+			u := uu.ID{Higher: 7, Lower: 7}
+			uerr := u.UnmarshalText([]byte(text))
+			if uerr != nil {
+				u = uu.ID{}
+			}
+			judge("ID.UnmarshalText", u, uerr)
+		}
 		if len(text)%4 == 0 {
 			g, err = uu.DefaultParser(uuNamedS(text), r)
 			judge("DefaultParser[named string]", g, err)
@@ -448,6 +456,30 @@ func runC05(c *rt.Ctx) {
 		}
 		uu.MaxInputLength = oldL
 		c.Require("long-shape-with-limit-raised", 10000)
+	}
+	{ // the text as other layers spell it (quoted, bracketed, escaped, padded, doubled, other scripts): not the text
+		oldL := uu.MaxInputLength
+		for _, limit := range []int{45, 0, 400} {
+			uu.MaxInputLength = limit
+			c.Parallel(fmt.Sprintf("decorated-%d", limit), 0, func(w *rt.W) {
+				for k := 0; k < 64/w.NShards+1; k++ {
+					t := ref.UUIDText(w.Rng.U64(), w.Rng.U64())
+					if k%3 == 0 {
+						t = strings.ToUpper(t)
+					}
+					for _, base := range []string{t, "urn:uuid:" + t} {
+						for _, d := range decorate(base) {
+							for _, r := range rules[:4] {
+								c05Parse(w, d, r, true)
+							}
+							w.ClassN("decorated-valid-text", 1)
+						}
+					}
+				}
+			})
+		}
+		uu.MaxInputLength = oldL
+		c.Require("decorated-valid-text", 10000)
 	}
 	coldStart(c, "C05", 12)
 	c.Exhaustive("all 6 pairs of separator positions x all 65,536 byte pairs on one valid text")
